@@ -42,6 +42,25 @@ Theorem C11_script_io_error_nonzero_exit0_all_accepted :
 Proof. exact script_spec_proof. Qed.
 Print Assumptions C11_script_io_error_nonzero_exit0_all_accepted.
 
+(* util::ReadOrEOF / util::ReadOrThrow (the read loops under ReadCompressed and the WARC reader), any oracle:
+   no fuel error, no abort; ReadOrEOF yields a value iff no call failed, and the value is the concatenation of
+   what the successful reads delivered; ReadOrThrow never returns after a failed call, and when it returns it
+   returns the concatenation of non-empty reads (end of file before the requested amount is an exception) *)
+Theorem C11_read_loops :
+  (forall fd amount orc r evs orc', ReadOrEOF fd amount orc = (r, evs, orc') ->
+     r <> Fuel /\ r <> Abort /\ is_val r = negb (any_failed evs) /\
+     (forall data, r = Val data -> data = concat (delivered fd evs))) /\
+  (forall fd amount orc r evs orc', ReadOrThrow fd amount orc = (r, evs, orc') ->
+     r <> Fuel /\ r <> Abort /\ (any_failed evs = true -> r = Exn) /\
+     (forall data, r = Val data -> any_failed evs = false /\ data = concat (delivered fd evs) /\ ~ In [] (delivered fd evs))).
+Proof.
+  split; intros fd amount orc r evs orc' E.
+  - unfold ReadOrEOF in E. destruct (read_or_eof_spec fd _ _ _ _ _ _ _ (Nat.lt_succ_diag_r _) E) as (H1 & H2 & H3 & H4 & _). auto.
+  - unfold ReadOrThrow in E. destruct (read_or_throw_spec fd _ _ _ _ _ _ _ (Nat.lt_succ_diag_r _) E) as (H1 & H2 & H3 & H4). auto.
+Qed.
+Print Assumptions C11_read_loops.
+
+
 (* One output file of shard, end to end (util/threaded_buffered_stream.hh producer side = C20's
    stream model, writer thread, ~WriteCompressed, ~FileWriter) for ANY list of lines routed to it and ANY
    oracle: it terminates; a failed write/fsync/close on the file => the process is killed by SIGABRT
